@@ -10,7 +10,7 @@ SE2 = "oxmpl/src/base/spaces/se2_state_space.rs"
 SE3 = "oxmpl/src/base/spaces/se3_state_space.rs"
 SOURCES = [SRC, ANY, SE2, SE3]
 PRELUDE = ["core.rs", "spaces.rs"]
-SERVES = ["C13", "C09", "C14"]
+SERVES = ["C13", "C09", "C14", "C11"]
 FUNCTIONS = [SRC + "::CompoundStateSpace::" + f for f in ("new", "distance", "interpolate", "sample_uniform", "enforce_bounds", "satisfies_bounds", "get_longest_valid_segment_length")] + \
     [ANY + "::<T as AnyStateSpace>::" + f for f in ("distance_dyn", "interpolate_dyn", "enforce_bounds_dyn", "satisfies_bounds_dyn", "get_longest_valid_segment_length_dyn")] + \
     [f_ + "::" + t + "::" + f for f_, t in ((SE2, "SE2StateSpace"), (SE3, "SE3StateSpace")) for f in ("new", "distance", "interpolate", "enforce_bounds", "satisfies_bounds", "sample_uniform", "get_longest_valid_segment_length")]
@@ -78,7 +78,7 @@ PRELUDE_EDITS = [
     ("    fn interpolate(&self, from: &Self::StateType, to: &Self::StateType, t: f64, state: &mut Self::StateType)\n        ensures *final(state) == self.interp_spec(from, to, t);\n",
      "    fn interpolate(&self, from: &Self::StateType, to: &Self::StateType, t: f64, state: &mut Self::StateType) requires self.state_ok(from), self.state_ok(to), self.state_ok(old(state)),\n        ensures self.interp_rel(from, to, t, final(state)), self.state_ok(final(state));     //@ space.interpolate.law [C13]\n"),
     ("    fn enforce_bounds(&self, state: &mut Self::StateType);\n",
-     "    spec fn interp_rel(&self, from: &Self::StateType, to: &Self::StateType, t: f64, out: &Self::StateType) -> bool; spec fn enforce_rel(&self, before: &Self::StateType, after: &Self::StateType) -> bool; fn enforce_bounds(&self, state: &mut Self::StateType) requires self.state_ok(old(state)), ensures self.enforce_rel(old(state), final(state)), self.state_ok(final(state));     //@ space.enforce_bounds.law [C13]\n"),
+     "    spec fn interp_rel(&self, from: &Self::StateType, to: &Self::StateType, t: f64, out: &Self::StateType) -> bool; spec fn enforce_rel(&self, before: &Self::StateType, after: &Self::StateType) -> bool; fn enforce_bounds(&self, state: &mut Self::StateType) requires self.state_ok(old(state)), ensures self.enforce_rel(old(state), final(state)), self.state_ok(final(state));     //@ space.enforce_bounds.law [C13,C11]\n"),
     ("    fn get_longest_valid_segment_length(&self) -> (r: f64)\n        ensures r == self.lvsl_spec();\n",
      "    fn get_longest_valid_segment_length(&self) -> (r: f64) requires self.space_ok(),\n        ensures r == self.lvsl_spec();     //@ space.lvsl.law [C13]\n"),
 ]
@@ -129,6 +129,7 @@ STUBS = _stub_space("RealVectorStateSpace", "dimension: usize, bounds_option: Op
     "#[verifier::external_body]\npub struct SO3State { _p: u8 }\n"
 
 VOCAB = STUBS + r'''
+use std::f64::consts::PI;      // the files' dropped `use` blocks import it; harmless when unused
 #[verifier::external_body]
 pub fn assert_eq_usize(a: usize, b: usize)      // unit rule: assert_eq!(a, b, "..")
     requires a == b      //@ assert_eq.holds [C13,C08]
@@ -169,7 +170,7 @@ ann('impl#2', 'impl-start', r'''
     }
     /// C13: the bounds check is the conjunction of the component checks
     open spec fn in_bounds_spec(&self, s: &CompoundState) -> bool {
-        forall|i: int| 0 <= i < self.subspaces@.len() ==> (#[trigger] self.subspaces@[i]).dyn_in_bounds(&*s.components@[i])     //@ bounds_law [C13]
+        forall|i: int| 0 <= i < self.subspaces@.len() ==> (#[trigger] self.subspaces@[i]).dyn_in_bounds(&*s.components@[i])     //@ bounds_law [C13,C11]
     }
     /// C13: the resolution is the same weighted combination of the component resolutions
     open spec fn lvsl_spec(&self) -> f64 {
@@ -183,7 +184,7 @@ ann('impl#2', 'impl-start', r'''
     }
     open spec fn enforce_rel(&self, before: &CompoundState, after: &CompoundState) -> bool {
         &&& after.components@.len() == self.subspaces@.len()
-        &&& forall|i: int| 0 <= i < self.subspaces@.len() ==> (#[trigger] self.subspaces@[i]).dyn_enforce_rel(&*before.components@[i], &*after.components@[i])     //@ enforce_law [C13]
+        &&& forall|i: int| 0 <= i < self.subspaces@.len() ==> (#[trigger] self.subspaces@[i]).dyn_enforce_rel(&*before.components@[i], &*after.components@[i])     //@ enforce_law [C13,C11]
     }
     /// C13: sampling draws every component from its own space, in order
     open spec fn sample_set(&self, s: &CompoundState) -> bool {
@@ -211,7 +212,7 @@ ann('fn satisfies_bounds', 'loop for#1', r'''
             invariant
                 self.wf(), self.typed(state),
                 0 <= i <= self.subspaces@.len(),
-                forall|j: int| 0 <= j < i ==> (#[trigger] self.subspaces@[j]).dyn_in_bounds(&*state.components@[j]),      //@ prefix_in_bounds [C13]
+                forall|j: int| 0 <= j < i ==> (#[trigger] self.subspaces@[j]).dyn_in_bounds(&*state.components@[j]),      //@ prefix_in_bounds [C13,C11]
 ''', 'cs.satisfies.loop', tags=['C13'])
 ann('fn interpolate', 'loop for#1', r'''
             invariant
@@ -225,9 +226,9 @@ ann('fn enforce_bounds', 'loop for#1', r'''
                 self.wf(), self.typed(state),
                 0 <= i <= self.subspaces@.len(),
                 state.components@.len() == old(state).components@.len(),
-                forall|j: int| 0 <= j < i ==> (#[trigger] self.subspaces@[j]).dyn_enforce_rel(&*old(state).components@[j], &*state.components@[j]),     //@ prefix_enforced [C13]
+                forall|j: int| 0 <= j < i ==> (#[trigger] self.subspaces@[j]).dyn_enforce_rel(&*old(state).components@[j], &*state.components@[j]),     //@ prefix_enforced [C13,C11]
                 forall|j: int| i <= j < self.subspaces@.len() ==> state.components@[j] == old(state).components@[j],
-''', 'cs.enforce.loop', tags=['C13'])
+''', 'cs.enforce.loop', tags=['C13', 'C11'])
 ann('fn get_longest_valid_segment_length', 'body-start', 'proof { ax_f64_obeys(); }', 'cs.lvsl.ax')
 ann('fn get_longest_valid_segment_length', 'loop for#1', r'''
             invariant
@@ -250,7 +251,7 @@ B.append(Ann('impl#1', 'impl-start', r'''
         dc::<T::StateType>(out) is Some && self.interp_rel(&dc::<T::StateType>(from).unwrap(), &dc::<T::StateType>(to).unwrap(), t, &dc::<T::StateType>(out).unwrap())     //@ any.interp_is_concrete [C13]
     }
     open spec fn dyn_enforce_rel(&self, before: &dyn State, after: &dyn State) -> bool {
-        dc::<T::StateType>(after) is Some && self.enforce_rel(&dc::<T::StateType>(before).unwrap(), &dc::<T::StateType>(after).unwrap())     //@ any.enforce_is_concrete [C13]
+        dc::<T::StateType>(after) is Some && self.enforce_rel(&dc::<T::StateType>(before).unwrap(), &dc::<T::StateType>(after).unwrap())     //@ any.enforce_is_concrete [C13,C11]
     }
 ''', 'any.specs', tags=['C13']))
 B.append(Ann('fn sample_uniform_dyn', 'attr', '#[verifier::external_body]', 'any.sample.ext'))
@@ -267,7 +268,7 @@ def se_anns(ty, st):
     open spec fn lvsl_spec(&self) -> f64 { self.0.lvsl_spec() }     //@ se.lvsl_is_compound [C13]
     uninterp spec fn interp_spec(&self, a: &%(st)s, b: &%(st)s, t: f64) -> %(st)s;
     open spec fn interp_rel(&self, from: &%(st)s, to: &%(st)s, t: f64, out: &%(st)s) -> bool { self.0.interp_rel(&from.0, &to.0, t, &out.0) }     //@ se.interp_is_compound [C13]
-    open spec fn enforce_rel(&self, before: &%(st)s, after: &%(st)s) -> bool { self.0.enforce_rel(&before.0, &after.0) }     //@ se.enforce_is_compound [C13]
+    open spec fn enforce_rel(&self, before: &%(st)s, after: &%(st)s) -> bool { self.0.enforce_rel(&before.0, &after.0) }     //@ se.enforce_is_compound [C13,C11]
     open spec fn sample_set(&self, s: &%(st)s) -> bool { self.0.sample_set(&s.0) }     //@ se.sample_is_compound [C13]
 ''' % dict(ty=ty, st=st)), 'se.specs.' + ty, tags=['C13']))
     S.append(Ann('fn new', 'sig', (r'''
